@@ -50,3 +50,22 @@ Definition second_run_start (sc : exec_scope) (left_by_first : ex) (w2 : nat) : 
   | ExecPerRunner => init_ex w2
   | _ => left_by_first            (* tables and max_workers of the executor the first run used *)
   end.
+
+(* ---- the fork-memory registry (_RUNNER_FORK_MEMORY): one entry per fork runner, keyed by the runner's uuid, put there when the runner
+   is built and looked up by every worker it forks.  Several runners may be alive in one interpreter (Labs used from several
+   threads, a run started while another is being drained). *)
+Inductive rop := ROpen (u : nat) | RClose (u : nat) | RFork (u : nat).
+Definition rstep (m : close_mode) (reg : list nat) (o : rop) : list nat :=
+  match o with
+  | ROpen u => u :: remove1 u reg
+  | RClose u => match m with CloseOwn => remove1 u reg | _ => [] end
+  | RFork _ => reg
+  end.
+(* did every forked worker find the entry of its runner?  (judged for forks of runners that are open at that moment) *)
+Fixpoint forks_ok (m : close_mode) (reg opened : list nat) (ops : list rop) : bool :=
+  match ops with
+  | [] => true
+  | RFork u :: ops' => (negb (mem u opened) || mem u reg) && forks_ok m reg opened ops'
+  | ROpen u :: ops' => forks_ok m (rstep m reg (ROpen u)) (u :: remove1 u opened) ops'
+  | RClose u :: ops' => forks_ok m (rstep m reg (RClose u)) (remove1 u opened) ops'
+  end.
